@@ -2,10 +2,12 @@ CONSTANTS MaxSeg = 5
  MaxClass = 3
  EqualAcrossPulses = FALSE
  FromFile = FALSE
+ MaxSeg2 = 3
 INIT Init
 NEXT Next
 INVARIANT ShortcutOnlyIfUniform
 INVARIANT OriginIsComputed
 INVARIANT OriginIsCongruent
 INVARIANT CopiedSourceNotGrounded
+INVARIANT JunctionsInFull
 CHECK_DEADLOCK FALSE
